@@ -42,7 +42,7 @@ from harness.lib import coqbuild, gcsim
 from harness.props import c05 as h5
 
 LEVEL = "proof"
-THEOREMS = ["C07_fail_closed", "C07_damage", "C07_transient", "C07_partial_decode", "C07_marker_keep"]
+THEOREMS = ["C07_fail_closed", "C07_damage", "C07_transient", "C07_partial_decode", "C07_pointer_consistent", "C07_pointer_raise_aborts", "C07_marker_keep"]
 REQ = gcsim.REQ
 TIMEOUT_MS = h5.TIMEOUT_MS
 
@@ -539,10 +539,33 @@ def apply_damage(root: str, key: str, dmg: Any) -> None:
 
 
 # ------------------------------------------------------------------------------------------ refresh-phase faults (oracle only)
+def version_of(key: str) -> int:
+    import re
+    return int(re.match(r"^metadata/v(\d+)", key).group(1))
+
+
+def pointer_expr(versions: List[int], published: int, rec: Dict[str, Any]) -> str:
+    """The fault of one pointer-plane run as the answers of Model/GCPointer.v: occurrence 0 is refresh()'s resolution,
+    occurrence 1 the collector's own; a raising kind = PRaise / XRaise, an unusable result = PNone / XFalse."""
+    truth, ok = f"(PSome {published}%nat)", "(fun _ : nat => XTrue)"
+    a = {0: truth, 1: truth}
+    x = {0: ok, 1: ok}
+    which = [0, 1] if rec["occ"] == "*" else [rec["occ"]]
+    for i in which:
+        if i not in (0, 1):
+            continue
+        if rec["role"] == "hint":
+            a[i] = "PNone" if rec["kind"] == "bad" else "PRaise"
+        elif rec["role"] == "metadata-file":
+            x[i] = f"(fun v : nat => if Nat.eqb v {published}%nat then {'XFalse' if rec['kind'] == 'bad' else 'XRaise'} else XTrue)"
+    vs = "[" + "; ".join(f"{v}%nat" for v in versions) + "]"
+    return f"match collect_resolve {vs} {a[0]} {x[0]} {a[1]} {x[1]} with RAbort => (-1)%Z | RNoTable => (-2)%Z | RUse v => Z.of_nat v end"
+
+
 def refresh_faults(spec: Dict[str, Any]) -> Dict[str, Any]:
     import logging
     logging.disable(logging.CRITICAL)
-    out: Dict[str, Any] = {"violations": [], "runs": 0}
+    out: Dict[str, Any] = {"violations": [], "runs": 0, "records": []}
     base = spec["base"] + "-refresh"
     shutil.rmtree(base, ignore_errors=True)
     os.makedirs(base)
@@ -555,6 +578,9 @@ def refresh_faults(spec: Dict[str, Any]) -> Dict[str, Any]:
         os.makedirs(os.path.dirname(probe))
         gcsim.copy_table(root, probe)
         pre = gcsim.run_collect(load_table(probe), spec["grace"], now)["pre_trace"]   # refresh() + the hint check
+        hint = open(os.path.join(root, gcsim.HINT_KEY)).read().strip()
+        out["published"] = int(hint) if hint.isdigit() else version_of("metadata/" + hint)
+        out["versions"] = sorted({version_of(k) for k in gcsim.list_tree(root) if gcsim.is_pointer_plane(k) and k.startswith("metadata/v")})
         occ: Dict[Tuple[str, str], int] = {}
         k = 0
         for (op, key, _f) in pre:
@@ -585,6 +611,9 @@ def refresh_faults(spec: Dict[str, Any]) -> Dict[str, Any]:
                     out["violations"].append({"key": f"hang:{what}", "what": f"{what}: the collection did not finish ({type(e).__name__})", "desc": {"what": what}})
                     continue
                 after = gcsim.list_tree(dst)
+                loaded = [c[1] for c in real["pre_trace"] if c[0] == "?read_json"]
+                out["records"].append({"what": what, "op": op, "role": prole, "occ": o_sel, "kind": kind, "raised": real["raised"],
+                                       "used": version_of(loaded[0]) if loaded else None})
                 vs = judge(spec["grace"], now, reach, live, markers0, before, after, real, "refresh" if real["raised"] else "none", what)
                 for v in vs:
                     v["desc"] = {"what": what}
@@ -667,6 +696,26 @@ def run_campaign(ctx) -> None:
             ctx.proof_problems.append("refresh-fault harness raised: " + r["harness_error"][-600:])
         for v in r["violations"]:
             ctx.violation(v["key"], v["what"], {"spec": {k: sp[k] for k in sp if k != "base"}, "campaign": "refresh", "only": v.get("desc")})
+    # ---- correspondence of the pointer plane: which version the collection worked from (or that it aborted), real vs Model/GCPointer.v
+    pexprs, precs = [], []
+    for sp, r in zip(specs, rres):
+        for rec in r.get("records", []):
+            if rec["role"] in ("hint", "metadata-file") and rec["occ"] in (0, 1, "*"):
+                pexprs.append(pointer_expr(r["versions"], r["published"], rec))
+                precs.append((sp, r, rec))
+    try:
+        pvals = coqbuild.coq_eval(["DS.Model.GCPointer"], pexprs, chunk=gcsim.chunk_for(len(pexprs))) if pexprs else []
+    except RuntimeError as e:
+        ctx.proof_problems.append("model evaluation failed: " + str(e)[:600])
+        pvals = []
+    pbad = []
+    for (sp, r, rec), mv in zip(precs, pvals):
+        real_v = -1 if rec["raised"] else (rec["used"] if rec["used"] is not None else -2)
+        ctx.count(1, ("pointer", sp.get("dead_writer"), rec["what"]))
+        if real_v != mv:
+            pbad.append({"spec": {k: sp[k] for k in sp if k != "base"}, "fault": rec["what"], "versions": r["versions"], "published": r["published"],
+                         "code_used_or_abort": real_v, "model": mv})
+    ctx.correspondence("gc_pointer", len(pvals), pbad)
     stage1, recs = [], []
     for spec, res in zip(specs, results):
         if res.get("dead"):
